@@ -345,13 +345,18 @@ def run(tier, seed):
         "float64 vs exact rationals: relative tolerance 1e-9",
     ]
     return rep.finish("proof", ob, trusted_base=core.TRUSTED_BASE_COMMON + [
-        "Model/CubeCounts.v is hand-written; tied to matrix/cubemeasure.py, stripe/cubemeasure.py, "
-        "matrix/measure.py margins, cubepart.py fall-backs and min_base_size_mask.py by this "
-        "correspondence run only"])
+        "Model/CubeCounts.v is hand-written; tied to matrix/measure.py margins, cubepart.py fall-backs and "
+        "min_base_size_mask.py by this correspondence run only; its bases / margins / scalar table base of the "
+        "nine class pairs (through the factory dict, inheritance flattened) and the stripe bases are ALSO tied "
+        "to the text of matrix/cubemeasure.py and stripe/cubemeasure.py by the C02_gen_* obligations "
+        "(Proofs/GenAgreeBases.v)",
+        core.TRUSTED_BASE_TRANSLATOR])
 
 
 def replay(path):
     d = json.load(open(path))
+    if d["violation"].get("kind") in core.OBLIGATION_KINDS:  # a broken obligation, no input to re-run
+        return core.replay_obligations(PID, d)
     case = d["violation"]["case"]
     cu.finish_case(case)
     if case.get("subtotals"):
